@@ -35,6 +35,8 @@ def run(ck):
     ck.rule("C01.R3", "interest byte tables (interest/register/set_interest) mutually inverse", floor=8)
     ck.rule("C01.R4", "Interest::and: equal -> same, different -> sometimes", floor=2)
     ck.rule("C01.R5", "cached interest/max level folded over all live dispatchers", floor=6)
+    ck.rule("C01.R14", "where first-hit registration consults the global default (no_std), installing a global default re-evaluates the cached interests", floor=1)
+    ck.rule("C01.R13", "the no_std registry re-evaluates what the std one does (interests and max level from the same calls; as C04.R7)", floor=3)
     ck.rule("C01.R6", "every new collector is registered (register_dispatch)", floor=6)
     ck.rule("C01.R7", "who may write MAX_LEVEL / callsite interest", floor=4)
     ck.rule("C01.R8", "STATIC_MAX_LEVEL table under each max_level feature", floor=18 if ck.tier == "thorough" else 0)
@@ -51,6 +53,9 @@ def run(ck):
     C04.r3(ck, F, rid="C01.R9")
     # ... and a rebuild must not run concurrently with a registration or another rebuild (C04.R1's critical sections)
     C04.r1(ck, F, rid="C01.R10")
+    # without std the same re-evaluation (interests *and* the max level) must happen: sibling agreement (C04.R7)
+    C04.r7(ck, F, rid="C01.R13")
+    install_reevaluates(ck)
     # a collector behind Box/Arc/Layered/... must be asked itself: a wrapper that falls back to the trait default for
     # register_callsite / enabled / max_level_hint caches an interest the collector never gave (C09.R1/R2, instantiated)
     from rules import C09
@@ -616,3 +621,39 @@ def r8(ck):
                 else:
                     got = [n for n, e in enc.items() if str(e) == str(v)]
                     ck.bad("C01.R8", key, "tracing/src/level_filters.rs", "STATIC_MAX_LEVEL evaluates to %s with feature %s" % (got or v, feat))
+
+
+def install_reevaluates(ck, rid="C01.R14"):
+    """A callsite's first hit caches the interest of the collectors `callsite::register` consults. With std that is the
+    list of every Dispatch created so far, so a Dispatch counts from `Dispatch::new` on. Without std it is
+    `dispatch::get_global()`: a callsite hit between `Dispatch::new(c)` and `set_global_default` is judged by the old
+    (no-op) global default, and only a re-evaluation at install time lets `c` see it. The rule is derived from what
+    `register` calls in each configuration, not from the configuration's name."""
+    for cfg in ("default", "nostd-core"):
+        F = Facts(cfg)
+        if cfg not in ck.configs:
+            ck.configs.append(cfg)
+        reg = F.body("tracing_core::callsite::inner::register")
+        sgd = F.body("tracing_core::dispatch::set_global_default")
+        if not (ck.anchor(rid, "callsite::register [%s]" % cfg, reg) and ck.anchor(rid, "set_global_default [%s]" % cfg, sgd)):
+            continue
+        consults_global = any(t["callee"].get("path") == "tracing_core::dispatch::get_global" for x in [reg] + F.closures_of(reg) for bb, t in x.calls())
+        key = "set_global_default re-evaluates cached interests when registration consults the global default [%s]" % cfg
+        if not consults_global:
+            ck.ok(rid, key, detail="register folds over the dispatcher list: a Dispatch counts from its creation")
+            continue
+        rebuilds = [bb for bb, t in sgd.calls() if (t["callee"].get("path") or "").startswith("tracing_core::callsite::") and
+                    (t["callee"].get("path") or "").rsplit("::", 1)[1] in ("rebuild_interest_cache", "rebuild_interest", "register_dispatch")]
+        stores = [bb for bb, t in sgd.calls() if (t["callee"].get("path") or "").endswith("::store") and
+                  "GLOBAL_INIT" in str(sgd.origin(t["argv"][0])) and "INITIALIZED" in str(sgd.origin(t["argv"][1]))]
+        ok = bool(rebuilds) and bool(stores) and all(any(sgd.dominates(s_, r) and s_ != r for s_ in stores) for r in rebuilds)
+        if ok:
+            # ... on every path that reports success
+            for p in PathEval(sgd).run():
+                if p.end == "return" and any(s_ in p.blocks for s_ in stores) and not any(r in p.blocks for r in rebuilds):
+                    ok = False
+        if ok:
+            ck.ok(rid, key, fn=sgd.path)
+        else:
+            ck.bad(rid, key, where(sgd.raw["sp"]), "callsite::register judges a first hit by dispatch::get_global(), but installing a new global default does not "
+                   "re-evaluate the callsites registered since the Dispatch was created: they stay cached as `never` for a collector that accepts them", fn=sgd.path)
